@@ -181,6 +181,7 @@ class GenericCallAdapter(Adapter):
                     new_code=self.context.file._value_to_code(value.value),
                     new_value=value.value,
                 )
+                result_args.append(value.value)
 
         # keyword arguments
         result_kwargs = {}
